@@ -607,7 +607,8 @@ Proof.
       apply csub_frame; [exact Hs | exact (run_scheduling_PK _ ci ci_state _ _ _ Hs H)].
     - right. left. apply cext_tasks. destruct (find_proc _ w) as [p|]; [|discriminate]. inv_binds H. inversion H; subst. reflexivity.
     - right. left. apply cext_tasks. destruct (find_proc _ w) as [p|]; [|discriminate]. inversion H; subst. reflexivity.
-    - right. left. apply cext_tasks. inversion H; subst. reflexivity. }
+    - right. left. apply cext_tasks. inversion H; subst. reflexivity.
+    - right. left. apply cext_tasks. inv_binds H. inversion H; subst. reflexivity. }
   assert (Ha : cget (s_core s) id = Some (ci t)) by (unfold cget; rewrite Hf; reflexivity).
   assert (Ha' : cget (s_core s') id = Some (ci t')) by (unfold cget; rewrite Hf'; reflexivity).
   destruct Hcases as [[_ S]|[S|S]].
